@@ -12,194 +12,42 @@
 //!  '11 h' cast! the group to Clone (fails and destroys the group when Clone is not enabled)   '12 h' upcast a cast group back
 //! after the script every slot is dropped in order.
 //! output per op: [code ok new-slot] ; [context count above baseline ; live instances ; destructors that ran since the last op (ids)]
+//! params: [context kind]  0 (default) the shared context is a `CArc<c_void>` (erased form of a CArc<()>: the count is the Arc's strong count);
+//!                         1 a ZERO-SIZED user context whose Clone and Drop maintain a count in a static (a handle onto one process-wide library)
 use crate::*;
-use cglue_macro::check;
 
-#[cglue_trait] pub trait Peek2 { fn peek2(&self) -> i64; }
-
-#[cglue_trait]
-pub trait Node {
-    #[wrap_with_obj(Peek2)]
-    type Child: Peek2 + 'static;
-    fn peek(&self) -> i64;
-    /// an owned child wrapped as a GROUP object (it receives a clone of the context like any owned child)
-    #[wrap_with_group(LifeGrp)]
-    type GKid: Peek2 + GFin + 'static;
-    fn gkid(&self) -> Self::GKid;
-    fn child(&self) -> Self::Child;
-    fn child_mut(&mut self) -> Self::Child;
-    fn into_child(self) -> Self::Child;
-    fn fin(self) -> i64;
+/// the shared context in its ERASED form, as plugin entry points receive it: every creation goes through CArc::<T>::into_opaque
+pub mod arc_ctx {
+    use crate::*;
+    use cglue_macro::check;
+    pub type Ctx = CArc<cglue::trait_group::c_void>;
+    thread_local! { static CTX_PROBE: std::cell::Cell<*const Arc<()>> = std::cell::Cell::new(std::ptr::null()); }
+    fn ctx_begin(arc: &Arc<()>) { CTX_PROBE.with(|c| c.set(arc as *const Arc<()>)); }
+    fn ctx_end() { CTX_PROBE.with(|c| c.set(std::ptr::null())); }
+    fn mk_ctx(arc: &Arc<()>) -> Ctx { CArc::<()>::from(arc.clone()).into_opaque() }
+    /// how many references to the shared context exist right now (None outside a run)
+    fn cur_count() -> Option<i64> { let p = CTX_PROBE.with(|c| c.get()); if p.is_null() { None } else { Some(Arc::strong_count(unsafe { &*p }) as i64) } }
+    include!("life_body.rs");
 }
 
-#[cglue_trait]
-pub trait RefNode {
-    #[wrap_with_obj_ref(Peek2)]
-    type R: Peek2 + 'static;
-    fn child_ref(&self) -> &Self::R;
+/// a zero-sized user context: holds no data, but every holder must have obtained it through Clone and releases it through Drop
+pub mod zst_ctx {
+    use crate::*;
+    use cglue_macro::check;
+    static Z_LIVE: AtomicI64 = AtomicI64::new(0);
+    static Z_ON: AtomicI64 = AtomicI64::new(0);
+    pub struct ZCtx(());
+    impl ZCtx { fn open() -> Self { Z_LIVE.fetch_add(1, SeqCst); ZCtx(()) } }
+    impl Clone for ZCtx { fn clone(&self) -> Self { Z_LIVE.fetch_add(1, SeqCst); ZCtx(()) } }
+    impl Drop for ZCtx { fn drop(&mut self) { Z_LIVE.fetch_sub(1, SeqCst); } }
+    pub type Ctx = ZCtx;
+    fn ctx_begin(_arc: &Arc<()>) { Z_LIVE.store(1, SeqCst); Z_ON.store(1, SeqCst); }
+    fn ctx_end() { Z_ON.store(0, SeqCst); }
+    fn mk_ctx(_arc: &Arc<()>) -> Ctx { ZCtx::open() }
+    fn cur_count() -> Option<i64> { if Z_ON.load(SeqCst) == 1 { Some(Z_LIVE.load(SeqCst)) } else { None } }
+    include!("life_body.rs");
 }
 
-/// consuming methods on a group object (the group container's own cobj_base_owned takes it apart)
-#[cglue_trait]
-pub trait GFin {
-    #[wrap_with_obj(Peek2)]
-    type GChild: Peek2 + 'static;
-    fn gfin(self) -> i64;
-    fn ginto_child(self) -> Self::GChild;
-    fn gchild_mut(&mut self) -> Self::GChild;
-}
-
-cglue_trait_group!(LifeGrp, { Peek2, GFin }, { Clone });
-
-pub struct Inst { id: i64, sub: Option<Box<Inst>> }
-impl Inst { fn new(id: i64) -> Self { LIVE.fetch_add(1, SeqCst); Inst { id, sub: None } } fn with_sub(id: i64) -> Self { let mut i = Inst::new(id); i.sub = Some(Box::new(Inst::new(id + 500))); i } }
-// at the moment an instance is destroyed: how many references to the shared context exist (probe set by `run`)
-thread_local! { static CTX_PROBE: std::cell::Cell<*const Arc<()>> = std::cell::Cell::new(std::ptr::null()); static SEEN_AT_DROP: RefCell<Vec<i64>> = RefCell::new(Vec::new()); }
-impl Drop for Inst {
-    fn drop(&mut self) {
-        LIVE.fetch_sub(1, SeqCst);
-        DROPS.with(|d| d.borrow_mut().push(self.id));
-        let p = CTX_PROBE.with(|c| c.get());
-        if !p.is_null() { let n = Arc::strong_count(unsafe { &*p }) as i64; let d = crate::alloc::domain(0); SEEN_AT_DROP.with(|v| v.borrow_mut().push(n)); crate::alloc::domain(d); }
-    }
-}
-impl Clone for Inst { fn clone(&self) -> Self { Inst::new(self.id + 1000) } }
-impl Peek2 for Inst { fn peek2(&self) -> i64 { self.id } }
-impl Node for Inst {
-    type Child = Inst;
-    type GKid = Inst;
-    fn gkid(&self) -> Inst { Inst::new(self.id + 100) }
-    fn peek(&self) -> i64 { self.id }
-    fn child(&self) -> Inst { Inst::new(self.id + 100) }
-    fn child_mut(&mut self) -> Inst { Inst::new(self.id + 100) }
-    fn into_child(self) -> Inst { Inst::new(self.id + 200) }
-    fn fin(self) -> i64 { self.id + 300 }
-}
-impl GFin for Inst { type GChild = Inst; fn gfin(self) -> i64 { self.id + 300 } fn ginto_child(self) -> Inst { Inst::new(self.id + 200) } fn gchild_mut(&mut self) -> Inst { Inst::new(self.id + 100) } }
-impl RefNode for Inst { type R = Inst; fn child_ref(&self) -> &Inst { self.sub.as_ref().unwrap() } }
-
-/// a ZERO-SIZED instance: boxing it allocates nothing, but it still has a destructor that must run exactly once
-pub struct Zst;
-impl Zst { fn new() -> Self { LIVE.fetch_add(1, SeqCst); Zst } }
-impl Drop for Zst {
-    fn drop(&mut self) {
-        LIVE.fetch_sub(1, SeqCst);
-        DROPS.with(|d| d.borrow_mut().push(-77));
-        let p = CTX_PROBE.with(|c| c.get());
-        if !p.is_null() { let n = Arc::strong_count(unsafe { &*p }) as i64; let d = crate::alloc::domain(0); SEEN_AT_DROP.with(|v| v.borrow_mut().push(n)); crate::alloc::domain(d); }
-    }
-}
-impl Peek2 for Zst { fn peek2(&self) -> i64 { -77 } }
-
-pub struct InstNoClone(Inst);
-impl Peek2 for InstNoClone { fn peek2(&self) -> i64 { self.0.id } }
-impl GFin for InstNoClone { type GChild = Inst; fn gfin(self) -> i64 { self.0.id + 300 } fn ginto_child(self) -> Inst { Inst::new(self.0.id + 200) } fn gchild_mut(&mut self) -> Inst { Inst::new(self.0.id + 100) } }
-cglue_impl_group!(Inst, LifeGrp, { Clone });
-cglue_impl_group!(InstNoClone, LifeGrp, {});
-
-/// a context payload that records where it is destroyed: inside a generated vtable wrapper (the callee) or after it returned
-pub struct CtxP;
-thread_local! { static CTX_DROP_SITES: RefCell<Vec<i64>> = RefCell::new(Vec::new()); }
-impl Drop for CtxP {
-    fn drop(&mut self) {
-        let d = crate::alloc::domain(0);   // the backtrace machinery caches symbol tables: not allocations of the code under test
-        let bt = format!("{}", std::backtrace::Backtrace::force_capture());
-        CTX_DROP_SITES.with(|v| v.borrow_mut().push(bt.contains("cglue_wrapped_") as i64));
-        drop(bt);
-        crate::alloc::domain(d);
-    }
-}
-
-// the shared context in its ERASED form, as plugin entry points receive it: every creation goes through CArc::<T>::into_opaque
-type Ctx = CArc<cglue::trait_group::c_void>;
-enum H<'a> {
-    Dead,
-    Node(NodeCtxBox<'a, Ctx>),
-    Child(Peek2CtxBox<'a, Ctx>),
-    Cl(cglue::ext::core::clone::CloneCtxBox<'a, Ctx>),
-    RefN(RefNodeCtxBox<'a, Ctx>),
-    Grp(LifeGrpCtxBox<'a, Ctx>),
-    GrpC(LifeGrpWithClone<'a, CBox<'a, cglue::trait_group::c_void>, Ctx>),
-}
-
-fn take<'a>(pool: &mut Vec<H<'a>>, i: i64) -> H<'a> { if i >= 0 && (i as usize) < pool.len() { std::mem::replace(&mut pool[i as usize], H::Dead) } else { H::Dead } }
-
-pub fn run(_params: &[i64], ops: &Rows, mon: &mut Mon) -> Rows {
-    let arc = Arc::new(());
-    CTX_PROBE.with(|c| c.set(&arc as *const Arc<()>));
-    let base = Arc::strong_count(&arc) as i64;
-    let live0 = LIVE.load(SeqCst);
-    let mut pool: Vec<H> = vec![];
-    let mut out: Rows = vec![];
-    let mut all: Vec<Vec<i64>> = ops.clone();
-    let mut k = 0; let mut cleanup = false;
-    let mut last_ids_ok = true;
-    loop {
-        if k == all.len() { if cleanup { break; } cleanup = true; for i in 0..pool.len() { all.push(vec![7, i as i64]); } if k == all.len() { break; } }
-        let op = all[k].clone();
-        let c = op[0];
-        let h = op.get(1).copied().unwrap_or(-1);
-        let ctx = || -> Ctx { CArc::<()>::from(arc.clone()).into_opaque() };
-        let mut res: Option<Option<H>> = None;
-        match c {
-            0 => res = Some(Some(H::Node(trait_obj!((Inst::new(op[1]), ctx()) as Node)))),
-            15 => res = Some(Some(H::Child(trait_obj!((Zst::new(), ctx()) as Peek2)))),
-            8 => res = Some(Some(H::Cl(trait_obj!((Inst::new(op[1]), ctx()) as Clone)))),
-            9 => res = Some(Some(H::RefN(trait_obj!((Inst::with_sub(op[1]), ctx()) as RefNode)))),
-            10 => res = Some(Some(if op.get(2).copied().unwrap_or(0) & 1 == 1 { H::Grp(group_obj!((Inst::new(op[1]), ctx()) as LifeGrp)) } else { H::Grp(group_obj!((InstNoClone(Inst::new(op[1])), ctx()) as LifeGrp)) })),
-            1 => { if h >= 0 && (h as usize) < pool.len() { match &pool[h as usize] {
-                    H::Node(o) => { let _ = o.peek(); res = Some(None); }
-                    H::Child(o) => { let _ = o.peek2(); res = Some(None); }
-                    H::Grp(o) => { let _ = o.peek2(); res = Some(None); }
-                    H::GrpC(o) => { let _ = o.peek2(); res = Some(None); }
-                    _ => {} } } }
-            2 => { if h >= 0 && (h as usize) < pool.len() { if let H::Node(o) = &pool[h as usize] { let ch = o.child(); res = Some(Some(H::Child(ch))); } } }
-            3 => { if h >= 0 && (h as usize) < pool.len() { if let H::RefN(o) = &pool[h as usize] { let r = o.child_ref(); if r.peek2() < 500 { last_ids_ok = false; } res = Some(None); } } }
-            4 => { match take(&mut pool, h) { H::Node(o) => res = Some(Some(H::Child(o.into_child()))), other => { if h >= 0 && (h as usize) < pool.len() { pool[h as usize] = other; } } } }
-            5 => { match take(&mut pool, h) { H::Node(o) => { let _ = o.fin(); res = Some(None); } other => { if h >= 0 && (h as usize) < pool.len() { pool[h as usize] = other; } } } }
-            6 => { if h >= 0 && (h as usize) < pool.len() { match &pool[h as usize] {
-                    H::Cl(o) => res = Some(Some(H::Cl(o.clone()))),
-                    H::GrpC(o) => res = Some(Some(H::GrpC(o.clone()))),
-                    _ => {} } } }
-            7 => { match take(&mut pool, h) { H::Dead => {}, x => {
-                    // the object being destroyed still holds its context clone while its instance is destroyed
-                    let before = Arc::strong_count(&arc) as i64;
-                    let _ = SEEN_AT_DROP.with(|v| std::mem::take(&mut *v.borrow_mut()));
-                    drop(x);
-                    let seen = SEEN_AT_DROP.with(|v| std::mem::take(&mut *v.borrow_mut()));
-                    if seen.iter().any(|n| *n < before) { mon.fail(format!("op{} an instance was destroyed after its object had already released the context (count {} at that moment, {} before the drop)", k, seen.iter().min().unwrap(), before)); }
-                    res = Some(None); } } }
-            11 => { match take(&mut pool, h) { H::Grp(g) => { match cast!(g impl Clone) { Some(c) => res = Some(Some(H::GrpC(c))), None => res = Some(None) } } other => { if h >= 0 && (h as usize) < pool.len() { pool[h as usize] = other; } } } }
-            12 => { match take(&mut pool, h) { H::GrpC(g) => res = Some(Some(H::Grp(g.upcast()))), other => { if h >= 0 && (h as usize) < pool.len() { pool[h as usize] = other; } } } }
-            16 => { match take(&mut pool, h) { H::Grp(o) => { let _ = o.gfin(); res = Some(None); } H::GrpC(o) => { let _ = o.gfin(); res = Some(None); } other => { if h >= 0 && (h as usize) < pool.len() { pool[h as usize] = other; } } } }
-            17 => { match take(&mut pool, h) { H::Grp(o) => res = Some(Some(H::Child(o.ginto_child()))), H::GrpC(o) => res = Some(Some(H::Child(o.ginto_child()))), other => { if h >= 0 && (h as usize) < pool.len() { pool[h as usize] = other; } } } }
-            20 => { if h >= 0 && (h as usize) < pool.len() { if let H::Node(o) = &pool[h as usize] { let g = o.gkid(); res = Some(Some(H::Grp(g))); } } }
-            18 => { if h >= 0 && (h as usize) < pool.len() { if let H::Node(o) = &mut pool[h as usize] { let ch = o.child_mut(); res = Some(Some(H::Child(ch))); } } }
-            19 => { if h >= 0 && (h as usize) < pool.len() { let ch = match &mut pool[h as usize] { H::Grp(o) => Some(o.gchild_mut()), H::GrpC(o) => Some(o.gchild_mut()), _ => None }; if let Some(ch) = ch { res = Some(Some(H::Child(ch))); } } }
-            13 | 14 => {
-                // a consuming call on the object that holds the LAST reference to its context
-                let _ = CTX_DROP_SITES.with(|v| std::mem::take(&mut *v.borrow_mut()));
-                let private = CArc::from(CtxP);
-                let o = trait_obj!((Inst::new(op[1]), private) as Node);
-                if c == 13 { let _ = o.fin(); } else { let ch = o.into_child(); drop(ch); }
-                let sites = CTX_DROP_SITES.with(|v| std::mem::take(&mut *v.borrow_mut()));
-                if sites != vec![0] { mon.fail(format!("op{} context payload destroyed {:?} (1 = inside the callee's wrapper, expected exactly once, after it returned)", k, sites)); }
-                res = Some(None);
-            }
-            _ => {}
-        }
-        let row = match res { None => vec![c, 0, -1], Some(None) => vec![c, 1, -1], Some(Some(x)) => { pool.push(x); vec![c, 1, pool.len() as i64 - 1] } };
-        out.push(row);
-        let mut obs = vec![Arc::strong_count(&arc) as i64 - base, LIVE.load(SeqCst) - live0];
-        obs.extend(take_drops());
-        out.push(obs);
-        k += 1;
-    }
-    drop(pool);
-    CTX_PROBE.with(|c| c.set(std::ptr::null()));
-    // ---- monitor: after every derived object is gone the context count is back to its starting value, nothing is alive
-    let lvl = Arc::strong_count(&arc) as i64 - base;
-    if lvl != 0 { mon.fail(format!("context count is {} above its starting value after all derived objects are gone", lvl)); }
-    if !last_ids_ok { mon.fail("borrowed child reached the wrong instance".to_string()); }
-    out
+pub fn run(params: &[i64], ops: &Rows, mon: &mut Mon) -> Rows {
+    if params.get(0).copied().unwrap_or(0) == 1 { zst_ctx::run(params, ops, mon) } else { arc_ctx::run(params, ops, mon) }
 }
